@@ -61,6 +61,11 @@ TQ(nu) == CASE nu = 1 -> <<1000000, 1839473, 6313752, 12706205, 63656741>>
             [] nu = 2000 -> <<674612, 1000892, 1645616, 1961151, 2578290>>
             [] nu = 3000 -> <<674572, 1000809, 1645362, 1960755, 2577469>>
             [] nu = 5000 -> <<674539, 1000742, 1645158, 1960439, 2576813>>
+            [] nu = 5001 -> <<674539, 1000742, 1645158, 1960438, 2576813>>
+            [] nu = 5002 -> <<674539, 1000742, 1645158, 1960438, 2576813>>
+            [] nu = 5003 -> <<674539, 1000742, 1645158, 1960438, 2576812>>
+            [] nu = 5004 -> <<674539, 1000742, 1645158, 1960438, 2576812>>
+            [] nu = 5005 -> <<674539, 1000742, 1645158, 1960438, 2576812>>
             [] OTHER -> <<>>
 \* a probability very close to one: p = 1 - k 2^-e = 1 - 5 * 2^-24 is a number of both scalar types,
 \* the argument (1+p)/2 = 1 - 5 * 2^-25 of the quantile only of f64 (an f32 computation of it is off
@@ -73,8 +78,9 @@ TQFine(nu) == CASE nu = 1 -> [v |-> 2136141486, d |-> 3]
                 [] nu = 5 -> [v |-> 363167045, d |-> 7]
                 [] nu = 6 -> [v |-> 245828110, d |-> 7]
                 [] OTHER -> [v |-> 0, d |-> 0]
-\* degrees of freedom beyond the lattice: reached by replicating the rows of an instance (ReplLaw)
-BigNus == {8, 10, 12, 15, 20, 24, 30, 31, 32, 40, 50, 60, 80, 100, 120, 200, 300, 500, 1000, 1001, 1200, 1500, 2000, 3000, 5000}
+\* degrees of freedom beyond the lattice: reached by replicating the rows of an instance (ReplLaw);
+\* 5000..5005 are consecutive so that every instance (N <= 6) reaches a sample count above 5000
+BigNus == {8, 10, 12, 15, 20, 24, 30, 31, 32, 40, 50, 60, 80, 100, 120, 200, 300, 500, 1000, 1001, 1200, 1500, 2000, 3000, 5000, 5001, 5002, 5003, 5004, 5005}
 \* the quantile decreases with the degrees of freedom and stays above the normal quantile
 NormalQ == <<674490, 1000642, 1644854, 1959964, 2575829>>
 TQDecreasing == \A i \in 1..5 :
